@@ -17,6 +17,7 @@ import (
 const (
 	sampleFlagIsNonSyncSample = 1 << 16
 	concatenationTolerance    = 1 * time.Second
+	maxInitSize               = 10 * 1024 * 1024
 )
 
 var errTerminated = errors.New("terminated")
@@ -104,11 +105,54 @@ func segmentFMP4CanBeConcatenated(
 	}
 }
 
+// streamSize returns the size of r and restores the current position.
+func streamSize(r io.Seeker) (int64, error) {
+	cur, err := r.Seek(0, io.SeekCurrent)
+	if err != nil {
+		return 0, err
+	}
+
+	size, err := r.Seek(0, io.SeekEnd)
+	if err != nil {
+		return 0, err
+	}
+
+	_, err = r.Seek(cur, io.SeekStart)
+	if err != nil {
+		return 0, err
+	}
+
+	return size, nil
+}
+
+// readBoxPayload reads the payload of a box whose 8-byte header has just been read.
+// boxSize comes from the file and cannot be trusted: it is checked against the file size
+// before allocating.
+func readBoxPayload(r io.Reader, boxSize uint32, fileSize int64) ([]byte, error) {
+	if boxSize < 8 || int64(boxSize) > fileSize {
+		return nil, fmt.Errorf("invalid box size: %d", boxSize)
+	}
+
+	buf := make([]byte, boxSize-8)
+
+	_, err := io.ReadFull(r, buf)
+	if err != nil {
+		return nil, err
+	}
+
+	return buf, nil
+}
+
 func segmentFMP4ReadHeader(r io.ReadSeeker) (*fmp4.Init, time.Duration, error) {
+	fileSize, err := streamSize(r)
+	if err != nil {
+		return nil, 0, err
+	}
+
 	// check and skip ftyp
 
 	buf := make([]byte, 8)
-	_, err := io.ReadFull(r, buf)
+	_, err = io.ReadFull(r, buf)
 	if err != nil {
 		return nil, 0, err
 	}
@@ -137,6 +181,14 @@ func segmentFMP4ReadHeader(r io.ReadSeeker) (*fmp4.Init, time.Duration, error) {
 
 	moovSize := uint32(buf[0])<<24 | uint32(buf[1])<<16 | uint32(buf[2])<<8 | uint32(buf[3])
 
+	// ftyp and moov are read into memory: check their size against the file size
+	// and against a maximum, since it comes from the file and cannot be trusted.
+	if ftypSize < 8 || moovSize < 16 ||
+		(int64(ftypSize)+int64(moovSize)) > fileSize ||
+		(int64(ftypSize)+int64(moovSize)) > maxInitSize {
+		return nil, 0, fmt.Errorf("invalid ftyp or moov size")
+	}
+
 	// skip moov header
 
 	_, err = r.Seek(8, io.SeekCurrent)
@@ -150,6 +202,10 @@ func segmentFMP4ReadHeader(r io.ReadSeeker) (*fmp4.Init, time.Duration, error) {
 	_, err = amp4.Unmarshal(r, uint64(moovSize-8), &mvhd, amp4.Context{})
 	if err != nil {
 		return nil, 0, err
+	}
+
+	if mvhd.Timescale == 0 {
+		return nil, 0, fmt.Errorf("invalid mvhd timescale")
 	}
 
 	d := time.Duration(mvhd.DurationV0) * time.Second / time.Duration(mvhd.Timescale)
@@ -176,6 +232,12 @@ func segmentFMP4ReadHeader(r io.ReadSeeker) (*fmp4.Init, time.Duration, error) {
 		return nil, 0, err
 	}
 
+	for _, track := range init.Tracks {
+		if track.TimeScale == 0 {
+			return nil, 0, fmt.Errorf("invalid time scale of track %d", track.ID)
+		}
+	}
+
 	return &init, d, nil
 }
 
@@ -183,7 +245,12 @@ func segmentFMP4ReadDurationFromParts(
 	r io.ReadSeeker,
 	init *fmp4.Init,
 ) (time.Duration, error) {
-	_, err := r.Seek(0, io.SeekStart)
+	fileSize, err := streamSize(r)
+	if err != nil {
+		return 0, err
+	}
+
+	_, err = r.Seek(0, io.SeekStart)
 	if err != nil {
 		return 0, err
 	}
@@ -330,9 +397,8 @@ outer:
 
 		tfhdSize := uint32(buf[0])<<24 | uint32(buf[1])<<16 | uint32(buf[2])<<8 | uint32(buf[3])
 
-		buf2 := make([]byte, tfhdSize-8)
-
-		_, err = io.ReadFull(r, buf2)
+		var buf2 []byte
+		buf2, err = readBoxPayload(r, tfhdSize, fileSize)
 		if err != nil {
 			return 0, err
 		}
@@ -361,9 +427,7 @@ outer:
 
 		tfdtSize := uint32(buf[0])<<24 | uint32(buf[1])<<16 | uint32(buf[2])<<8 | uint32(buf[3])
 
-		buf2 = make([]byte, tfdtSize-8)
-
-		_, err = io.ReadFull(r, buf2)
+		buf2, err = readBoxPayload(r, tfdtSize, fileSize)
 		if err != nil {
 			return 0, err
 		}
@@ -387,9 +451,7 @@ outer:
 
 		trunSize := uint32(buf[0])<<24 | uint32(buf[1])<<16 | uint32(buf[2])<<8 | uint32(buf[3])
 
-		buf2 = make([]byte, trunSize-8)
-
-		_, err = io.ReadFull(r, buf2)
+		buf2, err = readBoxPayload(r, trunSize, fileSize)
 		if err != nil {
 			return 0, err
 		}
@@ -432,13 +494,22 @@ func segmentFMP4MuxParts(
 	var segmentDuration time.Duration
 	breakAtNextMdat := false
 
-	_, err := amp4.ReadBoxStructure(r, func(h *amp4.ReadHandle) (any, error) {
+	fileSize, err := streamSize(r)
+	if err != nil {
+		return 0, err
+	}
+
+	_, err = amp4.ReadBoxStructure(r, func(h *amp4.ReadHandle) (any, error) {
 		switch h.BoxInfo.Type.String() {
 		case "moof":
 			moofOffset = h.BoxInfo.Offset
+			tfhd = nil
+			tfdt = nil
 			return h.Expand()
 
 		case "traf":
+			tfhd = nil
+			tfdt = nil
 			return h.Expand()
 
 		case "tfhd":
@@ -454,6 +525,10 @@ func segmentFMP4MuxParts(
 				return nil, err
 			}
 			tfdt = box.(*amp4.Tfdt)
+
+			if tfhd == nil {
+				return nil, fmt.Errorf("tfhd box not found")
+			}
 
 			track := findInitTrack(tracks, int(tfhd.TrackID))
 			if track == nil {
@@ -472,6 +547,10 @@ func segmentFMP4MuxParts(
 			}
 			trun := box.(*amp4.Trun)
 
+			if tfhd == nil || tfdt == nil {
+				return nil, fmt.Errorf("tfhd or tfdt box not found")
+			}
+
 			dataOffset := moofOffset + uint64(trun.DataOffset)
 			dts := int64(tfdt.BaseMediaDecodeTimeV1) + startDTSMP4
 
@@ -483,6 +562,10 @@ func segmentFMP4MuxParts(
 
 				sampleOffset := dataOffset
 				sampleSize := e.SampleSize
+
+				if sampleOffset > uint64(fileSize) || uint64(sampleSize) > (uint64(fileSize)-sampleOffset) {
+					return nil, fmt.Errorf("sample is outside of the file")
+				}
 
 				err = m.writeSample(
 					dts,
